@@ -732,6 +732,8 @@ func VerifNewWorld(op string) (*VerifWorld, string) {
 		}
 		n := verifAtoi(v, 0)
 		switch k[4:] {
+		case "MaxPieces":
+			cfg.MaxPieces = uint32(n)
 		case "MaxPeerAccept":
 			cfg.MaxPeerAccept = n
 		case "MaxPeerDial":
@@ -772,7 +774,7 @@ func VerifNewWorld(op string) (*VerifWorld, string) {
 		return nil, "bad-op:session:" + err.Error()
 	}
 	w.sess = s
-	opt := &AddTorrentOptions{Stopped: true, Sequential: m["seq"] == "1", StopAfterDownload: m["stopafter"] == "1"}
+	opt := &AddTorrentOptions{Stopped: true, Sequential: m["seq"] == "1", StopAfterDownload: m["stopafter"] == "1", StopAfterMetadata: m["stopaftermeta"] == "1"}
 	var tor *Torrent
 	if m["magnet"] == "1" {
 		w.magnet = true
